@@ -306,7 +306,7 @@ func checkC02(c *Ctx) {
 	r.Rule("C02/DELIVER/concat", "Delivery.Reader = io.MultiReader(header text…, bytes.NewReader(source)) with source the unmodified parameter as last segment; the source parameter is only read")
 	r.Rule("C02/STORE/write", "AddMessage of each store moves message.Source() to its sink unmodified; Size() is defined from the stored bytes; Source() reads them back plainly")
 	r.Rule("C02/READ/source", "source endpoints: the reader from Manager.SourceReader reaches io.Copy(w, r) untouched; StoreManager.SourceReader returns the store message's Source()")
-	r.Rule("C02/POP3/lines", "POP3 streaming: Scanner over a message source has its token limit raised; each sent line is φ(line, \".\"+line) under HasPrefix(line, \".\"); \".\" terminator sent on every exit after streaming began")
+	r.Rule("C02/POP3/lines", "POP3 streaming: Scanner over a message source has its token limit raised; each sent line is φ(line, \".\"+line) under HasPrefix(line, \".\"); \".\" terminator sent on every exit after streaming began; every consumer of a message source in the package is a Scanner (examined), Close, or a helper that is followed — ReadLine pieces are refused, anything else is undecided")
 	m := c.smtp()
 	if !m.ok {
 		return
@@ -1200,6 +1200,150 @@ func (c *Ctx) c02Pop3() {
 	}
 	r.Floor("C02/POP3/lines", "scanners over message sources in pop3", n, 1)
 	c.c02SendVerbatim(send)
+	c.c02Pop3Consumers()
+}
+
+// c02Pop3Consumers: every consumer of a message source in the POP3 package is one the streaming
+// rule understands. The rule above examines bufio.Scanner loops; a source that is split into
+// lines by other means would otherwise go unexamined. A bufio.Reader's ReadLine in particular
+// hands out long lines in pieces, and a dot-stuffing decision per piece inserts a byte in the
+// middle of a line.
+func (c *Ctx) c02Pop3Consumers() {
+	r, p := c.R, c.P
+	srcObj := p.MethodObj("pkg/storage", "Message", "Source")
+	if srcObj == nil {
+		return
+	}
+	type finding struct {
+		bad         bool
+		where, what string
+	}
+	nSrc := 0
+	for _, fn := range pkgFuncs(p, "pkg/server/pop3") {
+		fn := fn
+		eng.EachInstr(fn, func(in ssa.Instruction) {
+			call, ok := in.(*ssa.Call)
+			if !ok || !eng.IsCallTo(call.Common(), srcObj) {
+				return
+			}
+			nSrc++
+			var finds []finding
+			seen := map[ssa.Value]bool{}
+			var fwd func(v ssa.Value, depth int)
+			consumer := func(ci ssa.CallInstruction, v ssa.Value, depth int) {
+				cc := ci.Common()
+				name := eng.CalleeName(cc)
+				if cc.IsInvoke() {
+					if cc.Value == v && cc.Method.Name() == "Close" {
+						return
+					}
+					if cc.Value == v {
+						finds = append(finds, finding{false, p.InstrPos(ci), "method " + cc.Method.Name() + " of the source"})
+					}
+					return
+				}
+				if g := eng.StaticCallee(cc); g != nil && eng.InModule(g) && len(g.Blocks) > 0 {
+					for ai, a := range cc.Args {
+						if a == v && ai < len(g.Params) {
+							fwd(g.Params[ai], depth+1)
+						}
+					}
+					return
+				}
+				switch name {
+				case "bufio.NewScanner":
+					return // examined by the scanner rule
+				case "bufio.NewReader", "bufio.NewReaderSize":
+					cv, isV := ci.(*ssa.Call)
+					if !isV || cv.Referrers() == nil {
+						return
+					}
+					for _, ref := range *cv.Referrers() {
+						rc, ok := ref.(*ssa.Call)
+						if !ok {
+							continue
+						}
+						switch eng.CalleeName(rc.Common()) {
+						case "(*bufio.Reader).ReadLine":
+							finds = append(finds, finding{true, p.InstrPos(rc), "(*bufio.Reader).ReadLine returns a line longer than the buffer in pieces: a dot-stuffing decision taken per piece inserts a '.' in the middle of a line whenever a piece starts with one, and the client cannot tell it from content"})
+						default:
+							finds = append(finds, finding{false, p.InstrPos(rc), eng.CalleeName(rc.Common()) + " on a buffered reader over the source"})
+						}
+					}
+					return
+				}
+				// a function value parameter (relay callback): resolved by the scanner rule's uses
+				if _, isP := cc.Value.(*ssa.Parameter); isP {
+					return
+				}
+				finds = append(finds, finding{false, p.InstrPos(ci), name})
+			}
+			fwd = func(v ssa.Value, depth int) {
+				if seen[v] || depth > 6 || v.Referrers() == nil {
+					return
+				}
+				seen[v] = true
+				for _, ref := range *v.Referrers() {
+					switch x := ref.(type) {
+					case *ssa.Extract:
+						if x.Index == 0 {
+							fwd(x, depth)
+						}
+					case *ssa.MakeInterface, *ssa.ChangeInterface, *ssa.Phi, *ssa.ChangeType:
+						fwd(x.(ssa.Value), depth)
+					case *ssa.Call:
+						consumer(x, v, depth)
+					case *ssa.Defer:
+						consumer(x, v, depth)
+					case *ssa.Store:
+						if x.Val != v {
+							continue
+						}
+						if cell := eng.CellOf(x.Addr); cell != nil {
+							for _, ld := range eng.CellLoads(cell) {
+								fwd(ld, depth)
+							}
+						}
+					case *ssa.MakeClosure:
+						if g, ok := x.Fn.(*ssa.Function); ok {
+							for i, b := range x.Bindings {
+								if b == v && i < len(g.FreeVars) {
+									fwd(g.FreeVars[i], depth+1)
+								}
+							}
+						}
+					case *ssa.Return:
+						for _, cs := range p.StaticCallSites(x.Parent()) {
+							if cv, ok := cs.Instr.(*ssa.Call); ok {
+								fwd(cv, depth+1)
+							}
+						}
+					}
+				}
+			}
+			fwd(call, 0)
+			cons := "consumers@" + shortFn(fn)
+			var bad, unknown []string
+			for _, f := range finds {
+				if f.bad {
+					bad = append(bad, f.where+": "+f.what)
+				} else {
+					unknown = append(unknown, f.what+" at "+f.where)
+				}
+			}
+			sort.Strings(bad)
+			sort.Strings(unknown)
+			switch {
+			case len(bad) > 0:
+				r.Bad("C02/POP3/lines", cons, p.InstrPos(call), "%s", strings.Join(dedupStrings(bad), "; "))
+			case len(unknown) > 0:
+				r.Undecided("C02/POP3/lines", cons, p.InstrPos(call), "the message source is consumed by an operation the streaming rule does not model: %s", strings.Join(dedupStrings(unknown), "; "))
+			default:
+				r.Ok("C02/POP3/lines", cons, p.InstrPos(call), "the source is only scanned by a bufio.Scanner (examined above) and closed")
+			}
+		})
+	}
+	r.Floor("C02/POP3/lines", "message sources opened in pop3", nSrc, 1)
 }
 
 // sendTextArg: the text argument of a call of the session's send function: its first
